@@ -83,7 +83,7 @@ type optsT struct {
 	Attachment bool    `json:"attachment,omitempty"`
 }
 
-// genOpts: two requests in five carry options: batch counts 0, 1, small and large (up to 65536), inbound
+// genOpts: two requests in five carry options: batch counts 0, 1, small and large (up to 4096), inbound
 // traffic, the five resource types, hot-spot arguments, an attachment.
 func genOpts(r *rng.R) *optsT {
 	if !r.Chance(2, 5) {
@@ -92,7 +92,7 @@ func genOpts(r *rng.R) *optsT {
 	o := &optsT{}
 	if r.Chance(3, 4) {
 		// (bounded: code that wrongly iterates over the batch count must not hang the harness)
-		b := uint32(r.PickI(0, 1, 2, 2, 3, 5, 7, 100, 4096, 65536))
+		b := uint32(r.PickI(0, 1, 2, 2, 3, 5, 7, 100, 1000, 4096))
 		o.Batch = &b
 	}
 	o.Inbound = r.Chance(1, 3)
